@@ -152,4 +152,346 @@ def gface7 : GIface proto7 core Conn7.cfg Timed where
         simp [P7.recv, feed, hk, feedBody_ctl_pending]
         rfl
 
+/-! ## the handshake steps, as equations -/
+
+theorem emit_one (a tok : Nat) (ctl : Control) (h : ∀ r, ctl ≠ .close r)
+    (hc : ∀ rt, ctl = .connect rt → rt ≠ TOKEN_NONE) (ht : ∀ rt, ctl = .token rt → rt ≠ TOKEN_NONE) :
+    emit [.control a tok ctl] = .ok [.control a tok ctl] :=
+  Tw.Conn7.emit_ok (by
+    intro p hp; simp at hp; subst hp
+    exact Tw.Conn7.control_valid a tok ctl (fun r hr => absurd hr (h r)) hc ht)
+
+theorem tokenRandom_ne {draws : List Nat} {nt : Nat} (h : tokenRandom draws = some nt) : nt ≠ TOKEN_NONE := by
+  induction draws with
+  | nil => simp [tokenRandom] at h
+  | cons d ds ih =>
+    simp only [tokenRandom] at h
+    split at h
+    · injection h with h; subst h; assumption
+    · exact ih h
+
+theorem tick_token (now : Nat) (own : Nat) (s : Timeout) (h : s.triggered now = true) (hown : own ≠ TOKEN_NONE) :
+    P7.call now [] ⟨.token own, s⟩ .tick =
+      .ok { conn := ⟨.token own, Timeout.after now sendUs⟩, sent := [.control 0 TOKEN_NONE (.token own)] } := by
+  have hem := emit_one 0 TOKEN_NONE (.token own) (by intro r hr; cases hr) (by intro r hr; cases hr)
+    (by intro r hr; injection hr with hr; subst hr; exact hown)
+  simp [P7.call, Conn7.tick, h, tickAction, sendControl, sendControlWith, State.theirToken?, hem]
+
+theorem tick_connecting (now : Nat) (own their : Nat) (s : Timeout) (h : s.triggered now = true)
+    (hown : own ≠ TOKEN_NONE) :
+    P7.call now [] ⟨.connecting own their, s⟩ .tick =
+      .ok { conn := ⟨.connecting own their, Timeout.after now sendUs⟩, sent := [.control 0 their (.connect own)] } := by
+  have hem := emit_one 0 their (.connect own) (by intro r hr; cases hr)
+    (by intro r hr; injection hr with hr; subst hr; exact hown) (by intro r hr; cases hr)
+  simp [P7.call, Conn7.tick, h, tickAction, sendControl, sendControlWith, State.theirToken?, hem]
+
+theorem tick_pc (now : Nat) (own : Nat) (s : Timeout) :
+    ∃ s', P7.call now [] ⟨.pendingConnect own, s⟩ .tick = .ok { conn := ⟨.pendingConnect own, s'⟩, sent := [] } := by
+  by_cases h : s.triggered now = true
+  · exact ⟨.inactive, by simp [P7.call, Conn7.tick, h, tickAction]⟩
+  · exact ⟨s, by simp [P7.call, Conn7.tick, h]⟩
+
+theorem tick_unconnected (now : Nat) (s : Timeout) :
+    ∃ s', P7.call now [] ⟨.unconnected, s⟩ .tick = .ok { conn := ⟨.unconnected, s'⟩, sent := [] } := by
+  by_cases h : s.triggered now = true
+  · exact ⟨.inactive, by simp [P7.call, Conn7.tick, h, tickAction]⟩
+  · exact ⟨s, by simp [P7.call, Conn7.tick, h]⟩
+
+/-- an unconnected acceptor answers a token request -/
+theorem recv_unc_token (now : Nat) (draws : List Nat) (s : Timeout) (ownA nt : Nat)
+    (hnt : tokenRandom draws = some nt) :
+    P7.recv now draws ⟨.unconnected, s⟩ (.control 0 TOKEN_NONE (.token ownA)) () =
+      .ok { conn := ⟨.pendingConnect nt, s⟩, sent := [.control 0 ownA (.token nt)] } := by
+  have hem := emit_one 0 ownA (.token nt) (by intro r hr; cases hr) (by intro r hr; cases hr)
+    (by intro r hr; injection hr with hr; subst hr; exact tokenRandom_ne hnt)
+  simp [P7.recv, feed, expectedToken, State.ownToken?, feedBody, hnt, sendControlWith, hem]
+
+/-- … and answers it again while it waits for the `Connect` -/
+theorem recv_pc_token (now : Nat) (draws : List Nat) (s : Timeout) (ownA ownB : Nat) (hB : ownB ≠ TOKEN_NONE) :
+    P7.recv now draws ⟨.pendingConnect ownB, s⟩ (.control 0 TOKEN_NONE (.token ownA)) () =
+      .ok { conn := ⟨.pendingConnect ownB, s⟩, sent := [.control 0 ownA (.token ownB)] } := by
+  have hem := emit_one 0 ownA (.token ownB) (by intro r hr; cases hr) (by intro r hr; cases hr)
+    (by intro r hr; injection hr with hr; subst hr; exact hB)
+  simp [P7.recv, feed, expectedToken, feedBody, sendControlWith, hem]
+
+/-- the connector gets the acceptor's token and sends its `Connect` -/
+theorem recv_tok_token (now : Nat) (draws : List Nat) (s : Timeout) (ownA ownB : Nat) (hA : ownA ≠ TOKEN_NONE) :
+    P7.recv now draws ⟨.token ownA, s⟩ (.control 0 ownA (.token ownB)) () =
+      .ok { conn := ⟨.connecting ownA ownB, Timeout.after now sendUs⟩, sent := [.control 0 ownB (.connect ownA)] } := by
+  have hem := emit_one 0 ownB (.connect ownA) (by intro r hr; cases hr)
+    (by intro r hr; injection hr with hr; subst hr; exact hA) (by intro r hr; cases hr)
+  simp [P7.recv, feed, expectedToken, State.ownToken?, feedBody, tickAction, sendControl, sendControlWith,
+    State.theirToken?, hem]
+
+theorem recv_cng_token (now : Nat) (draws : List Nat) (s : Timeout) (ownA ownB t' : Nat) :
+    P7.recv now draws ⟨.connecting ownA ownB, s⟩ (.control 0 ownA (.token t')) () =
+      .ok { conn := ⟨.connecting ownA ownB, s⟩ } := by
+  simp [P7.recv, feed, expectedToken, State.ownToken?, feedBody]
+
+/-- the acceptor gets the `Connect` and sends its `Accept` -/
+theorem recv_pc_connect (now : Nat) (draws : List Nat) (s : Timeout) (ownA ownB : Nat) :
+    P7.recv now draws ⟨.pendingConnect ownB, s⟩ (.control 0 ownB (.connect ownA)) () =
+      .ok { conn := ⟨.pending ownB ownA, Timeout.after now sendUs⟩, sent := [.control 0 ownA .accept] } := by
+  have hem : emit [.control 0 ownA .accept] = .ok [.control 0 ownA .accept] := emit_ctl 0 ownA 1
+  simp [P7.recv, feed, expectedToken, State.ownToken?, feedBody, tickAction, sendControl, sendControlWith,
+    State.theirToken?, hem]
+
+theorem recv_pend_connect (now : Nat) (draws : List Nat) (s : Timeout) (ownA ownB t' : Nat) :
+    P7.recv now draws ⟨.pending ownB ownA, s⟩ (.control 0 ownB (.connect t')) () =
+      .ok { conn := ⟨.pending ownB ownA, s⟩ } := by
+  simp [P7.recv, feed, expectedToken, State.ownToken?, feedBody]
+
+/-- the connector gets the `Accept`: online, `Ready` -/
+theorem recv_cng_accept (now : Nat) (draws : List Nat) (s : Timeout) (ownA ownB : Nat) :
+    P7.recv now draws ⟨.connecting ownA ownB, s⟩ (.control 0 ownA .accept) () =
+      .ok { conn := ⟨.online ownA ownB .new, s⟩, events := [.ready] } := by
+  simp [P7.recv, feed, expectedToken, State.ownToken?, feedBody]
+
+theorem recv_onl_accept (now : Nat) (draws : List Nat) (s : Timeout) (ownA ownB : Nat) :
+    P7.recv now draws ⟨.online ownA ownB .new, s⟩ (.control 0 ownA .accept) () =
+      .ok { conn := ⟨.online ownA ownB .new, s⟩ } := by
+  have hfa : Online.new.feedAck 0 = .ok .new := new_feedAck (by rw [seqMod_eq]; omega)
+  simp [P7.recv, feed, expectedToken, State.ownToken?, hfa, feedBody]
+
+/-! ## the round that takes the connector online -/
+
+/-- a pending acceptor ignores further `Connect`s -/
+theorem recvs_pending_connects (now : Nat) (draws : List Nat) (ownA ownB : Nat) : ∀ (n : Nat) (e : End proto7)
+    (s : Timeout), e.conn = ⟨.pending ownB ownA, s⟩ →
+    ∃ e', recvEndsD now draws () e (List.replicate n (.control 0 ownB (.connect ownA))) = some e' ∧
+      e'.conn = e.conn ∧ e'.out = e.out ∧ e'.submitted = e.submitted ∧ e'.events = e.events := by
+  intro n
+  induction n with
+  | zero => intro e s _; exact ⟨e, rfl, rfl, rfl, rfl, rfl⟩
+  | succ n ih =>
+    intro e s he
+    have h1 : proto7.recv now draws e.conn (.control 0 ownB (.connect ownA)) () =
+        .ok { conn := ⟨.pending ownB ownA, s⟩ } := by
+      rw [he]; exact recv_pend_connect now draws s ownA ownB ownA
+    obtain ⟨e', h2, c2, o2, s2, v2⟩ := ih (e.book { conn := (⟨.pending ownB ownA, s⟩ : Conn) } []) s rfl
+    refine ⟨e', ?_, ?_, ?_, ?_, ?_⟩
+    · simp only [List.replicate, recvEndsD, recvEndD, h1]
+      exact h2
+    · rw [c2, he]; rfl
+    · rw [o2]; simp [End.book]
+    · rw [s2]; simp [End.book]
+    · rw [v2]; simp [End.book]
+
+theorem map_pkt_replicate {L : List (Sent proto7.Packet)} {c : Packet} (h : ∀ sn ∈ L, sn.pkt = c) :
+    L.map (·.pkt) = List.replicate L.length c := by
+  induction L with
+  | nil => rfl
+  | cons x xs ih =>
+    simp only [List.map_cons, List.length_cons, List.replicate_succ]
+    rw [h x (by simp), ih (fun sn hsn => h sn (by simp [hsn]))]
+    rfl
+
+/-- `a` connecting with the right token, `b` waiting for the `Connect` or already pending, some
+`Connect`s of `a` possibly still undelivered: after one round `a` is online and told `Ready`, `b` is
+pending, nothing is left over -/
+theorem connect_round7 (draws : List Nat) (s : FairState proto7) (ownA ownB : Nat) (hA : ownA ≠ TOKEN_NONE)
+    (hW : WInv proto7 core Conn7.cfg s.w) (hT : TInv Timed s.w)
+    (sa : Timeout) (ha : s.w.a.conn = ⟨.connecting ownA ownB, sa⟩)
+    (hb : (∃ sb, s.w.b.conn = ⟨.pendingConnect ownB, sb⟩) ∨ (∃ sb, s.w.b.conn = ⟨.pending ownB ownA, sb⟩))
+    (hcb : s.cb = s.w.b.out.length) (pre L : List (Sent proto7.Packet)) (hout : s.w.a.out = pre ++ L)
+    (hpre : pre.length = s.ca)
+    (hL : ∀ sn ∈ L, sn.pkt = .control 0 ownB (.connect ownA) ∧ sn.nStamp = s.w.a.nAbs ∧
+      s.w.b.nAbs ≤ sn.dStamp + 512) :
+    ∃ s2, fairRoundT draws () s = some s2 ∧
+      OnlineFH gface7 ((ownA, ownB), true) ((ownB, ownA), false) s2 [] ∧ Event.ready ∈ s2.w.a.events := by
+  obtain ⟨T1, hT1⟩ : ∃ T1, T1 = s.w.now + resendUs := ⟨_, rfl⟩
+  obtain ⟨T2, hT2⟩ : ∃ T2, T2 = T1 + sendUs := ⟨_, rfl⟩
+  have hsa : SendDue s.w.now sa := by have := hT.1; rw [ha] at this; exact this
+  have t1 : sa.triggered T1 = true := by
+    apply hsa.triggered; rw [hT1, sendUs_val, resendUs_val]; omega
+  have t2 : (Timeout.after T1 sendUs).triggered T2 = true := by
+    simp [Timeout.after, Timeout.triggered, hT2]
+  have ea1 : proto7.call T1 [] s.w.a.conn .tick =
+      .ok (tickRet (⟨.connecting ownA ownB, Timeout.after T1 sendUs⟩ : Conn) [.control 0 ownB (.connect ownA)]) := by
+    rw [ha]; exact tick_connecting T1 ownA ownB sa t1 hA
+  have ea2 : proto7.call T2 [] (⟨.connecting ownA ownB, Timeout.after T1 sendUs⟩ : Conn) .tick =
+      .ok (tickRet (⟨.connecting ownA ownB, Timeout.after T2 sendUs⟩ : Conn) [.control 0 ownB (.connect ownA)]) :=
+    tick_connecting T2 ownA ownB _ t2 hA
+  have hwinv : AInv Conn7.cfg (absEnd proto7 core s.w.a) (absEnd proto7 core s.w.b) := hW
+  have hwin_ba : s.w.b.nAbs ≤ s.w.a.dAbs + 512 := hwinv.2.win
+  have hwin_ab : s.w.a.nAbs ≤ s.w.b.dAbs + 512 := hwinv.1.win
+  rcases hb with ⟨sb, hbP⟩ | ⟨sb, hbP⟩
+  · -- the acceptor is waiting for the Connect
+    obtain ⟨sb1, eb1'⟩ := tick_pc T1 ownB sb
+    obtain ⟨sb2, eb2'⟩ := tick_pc T2 ownB sb1
+    have eb1 : proto7.call T1 [] s.w.b.conn .tick = .ok (tickRet (⟨.pendingConnect ownB, sb1⟩ : Conn) []) := by
+      rw [hbP]; exact eb1'
+    have eb2 : proto7.call T2 [] (⟨.pendingConnect ownB, sb1⟩ : Conn) .tick =
+        .ok (tickRet (⟨.pendingConnect ownB, sb2⟩ : Conn) []) := eb2'
+    have hrun := run_tickMoves' s.w T1 T2 hT1 hT2 _ _ _ _ _ _ _ _ ea1 eb1 ea2 eb2
+    generalize hw1 : ({ a := (s.w.a.book (tickRet (⟨.connecting ownA ownB, Timeout.after T1 sendUs⟩ : Conn) [.control 0 ownB (.connect ownA)]) []).book
+                            (tickRet (⟨.connecting ownA ownB, Timeout.after T2 sendUs⟩ : Conn) [.control 0 ownB (.connect ownA)]) []
+                        b := (s.w.b.book (tickRet (⟨.pendingConnect ownB, sb1⟩ : Conn) []) []).book
+                            (tickRet (⟨.pendingConnect ownB, sb2⟩ : Conn) []) []
+                        now := T2 } : World proto7) = w1 at hrun
+    have a1conn : w1.a.conn = ⟨.connecting ownA ownB, Timeout.after T2 sendUs⟩ := by rw [← hw1]; rfl
+    have b1conn : w1.b.conn = ⟨.pendingConnect ownB, sb2⟩ := by rw [← hw1]; rfl
+    have a1out : w1.a.out = s.w.a.out ++ [⟨.control 0 ownB (.connect ownA), s.w.a.nAbs, s.w.a.dAbs⟩,
+        ⟨.control 0 ownB (.connect ownA), s.w.a.nAbs, s.w.a.dAbs⟩] := by
+      rw [← hw1]; simp [End.book, tickRet, End.nAbs, End.dAbs, End.submittedVital, End.deliveredVital]; rfl
+    have b1out : w1.b.out = s.w.b.out := by rw [← hw1]; simp [End.book, tickRet]
+    have a1sub : w1.a.submitted = s.w.a.submitted := by rw [← hw1]; simp [End.book, tickRet]
+    have b1sub : w1.b.submitted = s.w.b.submitted := by rw [← hw1]; simp [End.book, tickRet]
+    have a1ev : w1.a.events = s.w.a.events := by rw [← hw1]; simp [End.book, tickRet]
+    have b1ev : w1.b.events = s.w.b.events := by rw [← hw1]; simp [End.book, tickRet]
+    have nAa := nAbs_of_submitted a1sub
+    have nAb := nAbs_of_submitted b1sub
+    have dAa := dAbs_of_events a1ev
+    have dAb := dAbs_of_events b1ev
+    -- block 1
+    have hLbmap : (L ++ [(⟨.control 0 ownB (.connect ownA), s.w.a.nAbs, s.w.a.dAbs⟩ : Sent proto7.Packet),
+        ⟨.control 0 ownB (.connect ownA), s.w.a.nAbs, s.w.a.dAbs⟩]).map (·.pkt) =
+        .control 0 ownB (.connect ownA) :: List.replicate (L.length + 1) (.control 0 ownB (.connect ownA)) := by
+      rw [map_pkt_replicate (c := .control 0 ownB (.connect ownA))]
+      · simp [List.replicate_succ]; rfl
+      · intro sn hsn
+        rcases List.mem_append.mp hsn with h | h
+        · exact (hL sn h).1
+        · simp at h; subst h; rfl
+    have hr1 : proto7.recv w1.now draws w1.b.conn (.control 0 ownB (.connect ownA)) () =
+        .ok { conn := ⟨.pending ownB ownA, Timeout.after w1.now sendUs⟩, sent := [.control 0 ownA .accept] } := by
+      rw [b1conn]; exact recv_pc_connect w1.now draws sb2 ownA ownB
+    obtain ⟨b2, hb2, b2conn, b2out, b2sub, b2ev⟩ := recvs_pending_connects w1.now draws ownA ownB (L.length + 1)
+      (w1.b.book { conn := (⟨.pending ownB ownA, Timeout.after w1.now sendUs⟩ : Conn), sent := [.control 0 ownA .accept] } [])
+      _ rfl
+    have hB : recvEndsD w1.now draws () w1.b ((L ++ [(⟨.control 0 ownB (.connect ownA), s.w.a.nAbs, s.w.a.dAbs⟩ : Sent proto7.Packet),
+        ⟨.control 0 ownB (.connect ownA), s.w.a.nAbs, s.w.a.dAbs⟩]).map (·.pkt)) = some b2 := by
+      rw [hLbmap]
+      simp only [recvEndsD, recvEndD, hr1]
+      exact hb2
+    have b2out' : b2.out = s.w.b.out ++ [⟨.control 0 ownA .accept, w1.b.nAbs, w1.b.dAbs⟩] := by
+      rw [b2out]; simp [End.book, b1out]
+      exact ⟨_, rfl, rfl⟩
+    have b2sub' : b2.submitted = w1.b.submitted := by rw [b2sub]; simp [End.book]
+    have b2conn' : b2.conn = ⟨.pending ownB ownA, Timeout.after w1.now sendUs⟩ := by rw [b2conn]; rfl
+    -- block 2
+    have hr3 : proto7.recv w1.now draws w1.a.conn (.control 0 ownA .accept) () =
+        .ok { conn := ⟨.online ownA ownB .new, Timeout.after T2 sendUs⟩, events := [.ready] } := by
+      rw [a1conn]; exact recv_cng_accept w1.now draws _ ownA ownB
+    generalize ha2 : (End.book w1.a ({ conn := (⟨.online ownA ownB .new, Timeout.after T2 sendUs⟩ : Conn), events := [.ready] } :
+        Ret proto7.Conn proto7.Packet) [] : End proto7) = a2
+    have hAr : recvEndsD w1.now draws () w1.a
+        ([(⟨.control 0 ownA .accept, w1.b.nAbs, w1.b.dAbs⟩ : Sent proto7.Packet)].map (·.pkt)) = some a2 := by
+      simp only [List.map_cons, List.map_nil, recvEndsD, recvEndD, hr3]
+      exact congrArg some ha2
+    obtain ⟨hround, hA3, hS3, hS2, a2sub, _, _, _⟩ := fairRoundT_of sim7 loct7 draws () hW hT hrun
+      (prea := pre) (Lb := L ++ [(⟨.control 0 ownB (.connect ownA), s.w.a.nAbs, s.w.a.dAbs⟩ : Sent proto7.Packet),
+        ⟨.control 0 ownB (.connect ownA), s.w.a.nAbs, s.w.a.dAbs⟩])
+      (by rw [a1out, hout, List.append_assoc]) hpre
+      (by
+        intro sn hsn
+        rcases List.mem_append.mp hsn with h | h
+        · exact ⟨by rw [nAa]; exact (hL sn h).2.1, by rw [nAb]; exact (hL sn h).2.2⟩
+        · simp at h; subst h; exact ⟨nAa.symm, by rw [nAb]; exact hwin_ba⟩)
+      hB (preb := s.w.b.out) (La := [⟨.control 0 ownA .accept, w1.b.nAbs, w1.b.dAbs⟩]) b2out' hcb.symm
+      (by
+        intro sn hsn; simp at hsn; subst hsn
+        exact ⟨(nAbs_of_submitted b2sub').symm, by rw [nAa, dAb]; exact hwin_ab⟩)
+      hAr
+    have a2conn : a2.conn = ⟨.online ownA ownB .new, Timeout.after T2 sendUs⟩ := by rw [← ha2]; rfl
+    have a2out : a2.out = w1.a.out := by rw [← ha2]; simp [End.book]
+    have a2ev : a2.events = w1.a.events ++ [.ready] := by rw [← ha2]; simp [End.book]
+    refine ⟨_, hround, ⟨⟨hA3, ⟨hS3, hS2⟩, ⟨.new, Or.inl ⟨_, a2conn⟩, fun _ => ⟨_, a2conn⟩⟩,
+      ⟨.new, Or.inr ⟨rfl, _, b2conn'⟩, fun h => by cases h⟩, rfl, rfl⟩, rfl, ⟨w1.a.out, ?_, rfl⟩, by simp⟩, ?_⟩
+    · show a2.out = _
+      rw [a2out]; simp
+    · show Event.ready ∈ a2.events
+      rw [a2ev]; simp
+  · -- the acceptor is pending: it repeats its Accept
+    have hsb : SendDue s.w.now sb := by have := hT.2; rw [hbP] at this; exact this
+    have u1 : sb.triggered T1 = true := by
+      apply hsb.triggered; rw [hT1, sendUs_val, resendUs_val]; omega
+    have eb1 : proto7.call T1 [] s.w.b.conn .tick =
+        .ok (tickRet (⟨.pending ownB ownA, Timeout.after T1 sendUs⟩ : Conn) [.control 0 ownA .accept]) := by
+      rw [hbP]; exact tick_pending T1 ownB ownA sb u1
+    have eb2 : proto7.call T2 [] (⟨.pending ownB ownA, Timeout.after T1 sendUs⟩ : Conn) .tick =
+        .ok (tickRet (⟨.pending ownB ownA, Timeout.after T2 sendUs⟩ : Conn) [.control 0 ownA .accept]) :=
+      tick_pending T2 ownB ownA _ t2
+    have hrun := run_tickMoves' s.w T1 T2 hT1 hT2 _ _ _ _ _ _ _ _ ea1 eb1 ea2 eb2
+    generalize hw1 : ({ a := (s.w.a.book (tickRet (⟨.connecting ownA ownB, Timeout.after T1 sendUs⟩ : Conn) [.control 0 ownB (.connect ownA)]) []).book
+                            (tickRet (⟨.connecting ownA ownB, Timeout.after T2 sendUs⟩ : Conn) [.control 0 ownB (.connect ownA)]) []
+                        b := (s.w.b.book (tickRet (⟨.pending ownB ownA, Timeout.after T1 sendUs⟩ : Conn) [.control 0 ownA .accept]) []).book
+                            (tickRet (⟨.pending ownB ownA, Timeout.after T2 sendUs⟩ : Conn) [.control 0 ownA .accept]) []
+                        now := T2 } : World proto7) = w1 at hrun
+    have a1conn : w1.a.conn = ⟨.connecting ownA ownB, Timeout.after T2 sendUs⟩ := by rw [← hw1]; rfl
+    have b1conn : w1.b.conn = ⟨.pending ownB ownA, Timeout.after T2 sendUs⟩ := by rw [← hw1]; rfl
+    have a1out : w1.a.out = s.w.a.out ++ [⟨.control 0 ownB (.connect ownA), s.w.a.nAbs, s.w.a.dAbs⟩,
+        ⟨.control 0 ownB (.connect ownA), s.w.a.nAbs, s.w.a.dAbs⟩] := by
+      rw [← hw1]; simp [End.book, tickRet, End.nAbs, End.dAbs, End.submittedVital, End.deliveredVital]; rfl
+    have b1out : w1.b.out = s.w.b.out ++ [⟨.control 0 ownA .accept, s.w.b.nAbs, s.w.b.dAbs⟩,
+        ⟨.control 0 ownA .accept, s.w.b.nAbs, s.w.b.dAbs⟩] := by
+      rw [← hw1]; simp [End.book, tickRet, End.nAbs, End.dAbs, End.submittedVital, End.deliveredVital]; rfl
+    have a1sub : w1.a.submitted = s.w.a.submitted := by rw [← hw1]; simp [End.book, tickRet]
+    have b1sub : w1.b.submitted = s.w.b.submitted := by rw [← hw1]; simp [End.book, tickRet]
+    have a1ev : w1.a.events = s.w.a.events := by rw [← hw1]; simp [End.book, tickRet]
+    have b1ev : w1.b.events = s.w.b.events := by rw [← hw1]; simp [End.book, tickRet]
+    have nAa := nAbs_of_submitted a1sub
+    have nAb := nAbs_of_submitted b1sub
+    have dAa := dAbs_of_events a1ev
+    have dAb := dAbs_of_events b1ev
+    -- block 1: all Connects are ignored
+    have hLbmap : (L ++ [(⟨.control 0 ownB (.connect ownA), s.w.a.nAbs, s.w.a.dAbs⟩ : Sent proto7.Packet),
+        ⟨.control 0 ownB (.connect ownA), s.w.a.nAbs, s.w.a.dAbs⟩]).map (·.pkt) =
+        List.replicate (L.length + 2) (.control 0 ownB (.connect ownA)) := by
+      rw [map_pkt_replicate (c := .control 0 ownB (.connect ownA))]
+      · simp; rfl
+      · intro sn hsn
+        rcases List.mem_append.mp hsn with h | h
+        · exact (hL sn h).1
+        · simp at h; subst h; rfl
+    obtain ⟨b2, hb2, b2conn, b2out, b2sub, b2ev⟩ :=
+      recvs_pending_connects w1.now draws ownA ownB (L.length + 2) w1.b _ b1conn
+    have hB : recvEndsD w1.now draws () w1.b ((L ++ [(⟨.control 0 ownB (.connect ownA), s.w.a.nAbs, s.w.a.dAbs⟩ : Sent proto7.Packet),
+        ⟨.control 0 ownB (.connect ownA), s.w.a.nAbs, s.w.a.dAbs⟩]).map (·.pkt)) = some b2 := by
+      rw [hLbmap]; exact hb2
+    -- block 2: the two Accepts
+    have hr3 : proto7.recv w1.now draws w1.a.conn (.control 0 ownA .accept) () =
+        .ok { conn := ⟨.online ownA ownB .new, Timeout.after T2 sendUs⟩, events := [.ready] } := by
+      rw [a1conn]; exact recv_cng_accept w1.now draws _ ownA ownB
+    have hr4 : proto7.recv w1.now draws (⟨.online ownA ownB .new, Timeout.after T2 sendUs⟩ : Conn) (.control 0 ownA .accept) () =
+        .ok { conn := ⟨.online ownA ownB .new, Timeout.after T2 sendUs⟩ } :=
+      recv_onl_accept w1.now draws _ ownA ownB
+    generalize ha2 : (End.book (End.book w1.a
+        ({ conn := (⟨.online ownA ownB .new, Timeout.after T2 sendUs⟩ : Conn), events := [.ready] } :
+          Ret proto7.Conn proto7.Packet) [])
+        ({ conn := (⟨.online ownA ownB .new, Timeout.after T2 sendUs⟩ : Conn) } : Ret proto7.Conn proto7.Packet) [] :
+          End proto7) = a2
+    have hAr : recvEndsD w1.now draws () w1.a
+        ([(⟨.control 0 ownA .accept, s.w.b.nAbs, s.w.b.dAbs⟩ : Sent proto7.Packet),
+          ⟨.control 0 ownA .accept, s.w.b.nAbs, s.w.b.dAbs⟩].map (·.pkt)) = some a2 := by
+      simp only [List.map_cons, List.map_nil, recvEndsD, recvEndD, hr3]
+      simp only [End.book]
+      rw [hr4]
+      exact congrArg some ha2
+    obtain ⟨hround, hA3, hS3, hS2, a2sub, _, _, _⟩ := fairRoundT_of sim7 loct7 draws () hW hT hrun
+      (prea := pre) (Lb := L ++ [(⟨.control 0 ownB (.connect ownA), s.w.a.nAbs, s.w.a.dAbs⟩ : Sent proto7.Packet),
+        ⟨.control 0 ownB (.connect ownA), s.w.a.nAbs, s.w.a.dAbs⟩])
+      (by rw [a1out, hout, List.append_assoc]) hpre
+      (by
+        intro sn hsn
+        rcases List.mem_append.mp hsn with h | h
+        · exact ⟨by rw [nAa]; exact (hL sn h).2.1, by rw [nAb]; exact (hL sn h).2.2⟩
+        · simp at h; subst h; exact ⟨nAa.symm, by rw [nAb]; exact hwin_ba⟩)
+      hB (preb := s.w.b.out) (La := [⟨.control 0 ownA .accept, s.w.b.nAbs, s.w.b.dAbs⟩,
+        ⟨.control 0 ownA .accept, s.w.b.nAbs, s.w.b.dAbs⟩]) (by rw [b2out, b1out]) hcb.symm
+      (by
+        intro sn hsn; simp at hsn; subst hsn
+        exact ⟨by rw [nAbs_of_submitted b2sub, nAb], by rw [nAa]; exact hwin_ab⟩)
+      hAr
+    have a2conn : a2.conn = ⟨.online ownA ownB .new, Timeout.after T2 sendUs⟩ := by rw [← ha2]; rfl
+    have a2out : a2.out = w1.a.out := by rw [← ha2]; simp [End.book]
+    have a2ev : a2.events = w1.a.events ++ [.ready] := by rw [← ha2]; simp [End.book]
+    have b2conn' : b2.conn = ⟨.pending ownB ownA, Timeout.after T2 sendUs⟩ := by rw [b2conn, b1conn]
+    refine ⟨_, hround, ⟨⟨hA3, ⟨hS3, hS2⟩, ⟨.new, Or.inl ⟨_, a2conn⟩, fun _ => ⟨_, a2conn⟩⟩,
+      ⟨.new, Or.inr ⟨rfl, _, b2conn'⟩, fun h => by cases h⟩, rfl, rfl⟩, rfl, ⟨w1.a.out, ?_, rfl⟩, by simp⟩, ?_⟩
+    · show a2.out = _
+      rw [a2out]; simp
+    · show Event.ready ∈ a2.events
+      rw [a2ev]; simp
+
 end Tw.NetSim.P7
